@@ -336,7 +336,12 @@ pub fn build(
                 if associated_functions_used_names.contains(&original_name) {
                     function.name = format!("{}_{}", base_name, original_name);
                 }
-                function.body = FunctionBody::field(base_name.clone(), original_name);
+                // A function without a receiver cannot be called through the base field
+                // (there is no `self` to reach it from), and does not depend on the object:
+                // keep its body, so that the derived type calls the same code directly.
+                if function.arguments.iter().any(|a| a.is_self()) {
+                    function.body = FunctionBody::field(base_name.clone(), original_name);
+                }
                 associated_functions_used_names.insert(function.name.clone());
                 associated_functions.push(function);
             }
